@@ -797,6 +797,39 @@ GROUPS = {
                     "result is the new `initial_values` (`self.reset()` then copies it into the state: `Glue.resetState`), or which of the two errors")),
         ],
     },
+    # ---------------------------------------------------------------------------------- small SymPy-facing helpers: what they ask of SymPy, and nothing else
+    "PyContracts": {
+        "imports": ["OdeVerif.Model.PyPrelude"],
+        "file": None,
+        "functions": [
+            (("odetoolbox/sympy_helpers.py", "_is_zero"), Spec(
+                name="isZero", header="{E : Type}", params=[("oz", "E → Bool"), ("x", "E")],
+                expr_map={"bool(sympy.expand_mul(x).is_zero)": "(oz x)"},
+                result_type="Bool",
+                doc="the whole test is the SymPy answer `expand_mul(x).is_zero` (the parameter `oz`: contract 'true only for zero'); no tolerance, no other branch")),
+            (("odetoolbox/shapes.py", "is_constant_term"), Spec(
+                name="isConstantTerm", header="", params=[("isNumberAtom", "Bool"), ("free", "List String"), ("parameters", "Option (List String)")],
+                types={"params_": "List String"},
+                predeclare=[("params_", "(parameters.getD [])")],
+                expr_map={"parameters is None": "(parameters.isNone = true)",
+                          "type(term) in [sympy.Float, sympy.Integer, SympyZero, SympyOne] or all([sym in parameters.keys() for sym in term.free_symbols])":
+                              "(decide (isNumberAtom = true ∨ ∀ sym ∈ free, sym ∈ params_))"},
+                stmt_map={"parameters = {}": [("params_", "[]")]},
+                asserts="drop", result_type="Bool",
+                doc="what is read of the term: whether it is an atomic number (`type(term) in [Float, Integer, Zero, One]`) and the names of its free symbols; "
+                    "`parameters` is `None` or the list of its keys")),
+            (("odetoolbox/singularity_detection.py", "SingularityDetection", "_is_matrix_defined_under_substitution"), Spec(
+                name="isMatrixDefinedUnderSubstitution", header="{E : Type}",
+                params=[("undef", "E → E → E → Bool"), ("entries", "List E"), ("cond", "List (E × E)")],
+                types={"val": "E", "expr": "E", "subs_expr": "E", "val_subs": "E × E × E", "for:sympy.flatten(A)": "E", "for:cond.items()": "(E × E)", "return": "Bool"},
+                expr_map={"sympy.flatten(A)": "entries", "cond.items()": "cond", "sympy.simplify(val.subs(expr, subs_expr))": "(val, expr, subs_expr)",
+                          "val_subs in [sympy.nan, sympy.zoo, sympy.oo] or val_subs.has(sympy.nan, sympy.zoo, sympy.oo, -sympy.oo)": "(undef val_subs.1 val_subs.2.1 val_subs.2.2 = true)",
+                          "False": "false", "True": "true"},
+                result_type="Bool",
+                doc="EVERY entry of the matrix is substituted and simplified for EVERY pair of the condition; `undef val expr subs_expr` is the SymPy test "
+                    "'the simplified substituted entry is or contains nan / zoo / oo' (contract)")),
+        ],
+    },
     # ---------------------------------------------------------------------------------- C14
     "PyStiffness": {
         "imports": ["OdeVerif.Model.PyPrelude", "OdeVerif.Generated.DrawDecision"],
